@@ -293,6 +293,10 @@ namespace Pistache::Http
                 return State::Again;
 
             char* end;
+            // strtol skips leading white space and has no length argument:
+            // insist on a leading digit so that it cannot scan past the token
+            if (!std::isdigit(static_cast<unsigned char>(*codeToken.rawText())))
+                raise("Failed to parse return code");
             auto code = strtol(codeToken.rawText(), &end, 10);
             if (*end != ' ')
                 raise("Failed to parse return code");
